@@ -72,6 +72,10 @@ class LoopMixin:
                     elif isinstance(n, (ast.Yield, ast.YieldFrom)):
                         if not ren:
                             yields[0] = True
+                    elif isinstance(n, ast.Call) and isinstance(n.func, ast.Name) and n.func.id == 'next' \
+                            and n.args and isinstance(n.args[0], ast.Name):
+                        if not ren:
+                            names.add(n.args[0].id)
                     elif isinstance(n, ast.Call) and isinstance(n.func, ast.Attribute):
                         if n.func.attr in LIST_MUTATORS:
                             p = path_of(n.func.value)
@@ -132,6 +136,12 @@ class LoopMixin:
             st.assume(*self.wf(nv, st))
             return nv
         if isinstance(v, (VFunc, VStr)):
+            return v
+        if isinstance(v, VIter):
+            l, pos = st.iters[v.iid]
+            np_ = z3.Int(fresh_name('hv_itpos'))
+            st.assume(0 <= np_, np_ <= l.n)
+            st.iters[v.iid] = (l, np_)
             return v
         raise Unsupported(f"cannot havoc '{name}' of shape {type(v).__name__}")
 
@@ -194,7 +204,20 @@ class LoopMixin:
             return key, top.loops[key]
         return key, None
 
+    def precoerce(self, st, loop: Loop):
+        """variables whose kind is declared in Loop.kinds take that shape already at loop entry (None -> OPT ...)"""
+        for name, kind in (loop.kinds or {}).items():
+            if name.startswith('@') or '.' in name:
+                continue
+            v = st.lookup(name)
+            if v is None or isinstance(v, VListRef):
+                continue
+            cv = self.coerce(st, v, kind)
+            if cv is not None:
+                self._frame_of(st, name).env[name] = cv
+
     def check_inv(self, st, loop: Loop, key: str, phase: str):
+        self.precoerce(st, loop)
         L = self.local_ctx(st)
         for name, term in loop.inv(L):
             self.check(st, term, f"{phase}[{key}]::{name}", phase)
@@ -256,7 +279,7 @@ class LoopMixin:
         st.bind(idxname, VInt(z3.IntVal(0)))
         self.check_inv(st, loop, key, 'inv_init')
         tnames = [x.id for x in ast.walk(node.target) if isinstance(x, ast.Name)]
-        self.havoc(st, node.body, loop)
+        self.havoc(st, node.body, loop, extra_names=tnames)
         i = z3.Int(fresh_name('i_' + key))
         st.bind(idxname, VInt(i))
         st.assume(0 <= i, i <= n)
